@@ -141,3 +141,29 @@ PROPS["C04"] = dict(
 )
 LEVEL_TEXT["C04"] = "Exhaustive enumeration of sequences as in C03 with a query set covering the whole usize range (below the first element, at, between, above the last element, around u, far above u), each answer compared with its order-theoretic definition."
 TECHNIQUE["C04"] = "bounded-exhaustive enumeration of inputs x boundary-value queries against order-theoretic definitions on a sorted Vec"
+
+PROPS["C09"] = dict(
+    level="exploration",
+    engine="E1",
+    parts=[dict(bin="e1_rcl")],
+    rule="case = (list of strings, block size k); ALL sequences of length <= N over the short alphabet {\"\", a, ab, abc, abd, b, e-acute, e-acute a, U+10FFFF}; all sequences of length <= 3 containing at least one of a^127, a^128, a^129 b (rear lengths crossing 127/128); sequences of length <= 2 (thorough 3) containing a^16511 or a^16512 c (crossing 16511/16512); sorted word lists of 150 (thorough 600) strings with shared prefixes for k up to 64; sorted, unsorted and duplicate-bearing lists all occur; non-trivial = at least 2 strings",
+    alphabet="k in {1,2,3,4,5} (sorted word lists also 8,16,64); probes: every alphabet string, proper prefixes/extensions, strings sorting before/between/after",
+    bound={"quick": "N=5", "thorough": "N=6"},
+    oracle="Vec<String>: len, get(i), get_in_place(i) all i; iter/lend/into_lender/into_iter and iter_from(j)/lend_from(j)/into_iter_from(j) for every j in 0..=n with exact remaining length before every next; index_of(s) returns an index holding s iff s was pushed, contains agrees; get(n) panics",
+    assumptions=STRICT,
+)
+LEVEL_TEXT["C09"] = "Exhaustive enumeration of all short string lists over an alphabet chosen for the code's branches (empty string, shared prefixes, multi-byte UTF-8, rear lengths crossing the variable-byte code boundaries) x block sizes, every accessor compared with the pushed list."
+TECHNIQUE["C09"] = "bounded-exhaustive enumeration of inputs x block sizes against Vec<String>"
+
+PROPS["C10"] = dict(
+    level="exploration",
+    engine="E1",
+    parts=[dict(bin="e1_bulk")],
+    rule="copy: per (word type, width, backend, from) all (to,len) pairs - ALL (from,to,len) triples over vectors of ceil(3 BITS/w)+2 aperiodic elements for u8 (thorough: also u16), boundary grid (from,to in 0..=2 BITS/w+1; len in {0,1,2,BITS/w+-1,2 BITS/w+-1,n,n+1}) for wider words; backends Vec, Box, &mut [W] with a dirty spare word; branch-hit counters for the six code paths of copy are reported; apply_in_place: every (W,width) x len in {0,1,k-1,k,k+1,2k+1} x backends (new, new_unaligned, dirty spare word, Box) with a logging callback, a cumulative callback through the unchecked variant, and a too-wide result; try_chunks_mut: all (width, len <= 3k, chunk size <= len+1); get_unaligned: every word type x EVERY width 0..=BITS x 4 lengths x every index, with and without the padding word; thorough: par_* on vectors of 2-2.5 x RAYON_MIN_LEN words",
+    alphabet="word types u8,u16,u32,u64,usize,u128; widths: all for u8 (u16 in thorough), boundary sets otherwise",
+    bound={"quick": "as in rule", "thorough": "u16 exhaustive copy triples, all u16 widths for apply_in_place, long parallel vectors"},
+    oracle="element-by-element definitions on Vec<W>; raw backend words outside the written element range unchanged; callback argument log equals the contents in index order; try_chunks_mut returns Err exactly when documented and views address the corresponding elements; get_unaligned equals get whenever it returns and panics for inadmissible widths",
+    assumptions=STRICT,
+)
+LEVEL_TEXT["C10"] = "Exhaustive enumeration of (from,to,len) alignments (all triples for 8-bit words, where every relative bit alignment and every single/multi-word span combination occurs within a few hundred elements), widths, lengths and backends, each compared with the element-by-element definition and with a raw-word footprint check."
+TECHNIQUE["C10"] = "bounded-exhaustive enumeration of (from,to,len,width,word type,backend) against element-wise reference definitions"
